@@ -104,11 +104,104 @@ struct Fault<T> {
     failed: bool,
     kinds: (bool, bool, bool), // fail on read / write / seek
     hit: Option<&'static str>,
+    /// innermost `c2pa::` function on the call stack when the fault was delivered
+    site: Option<String>,
+}
+
+/// The innermost frame of the SDK (`c2pa::…`, generics and hash suffix stripped) on the current
+/// call stack: names the call site that received an injected fault.
+fn sdk_call_site() -> String {
+    let bt = std::backtrace::Backtrace::force_capture().to_string();
+    let mut chain: Vec<String> = vec![];
+    for line in bt.lines() {
+        let l = line.trim();
+        // frame lines look like `12: c2pa::asset_handlers::png_io::get_png_chunk_positions`
+        let name = match l.split_once(": ") {
+            Some((n, rest)) if n.chars().all(|c| c.is_ascii_digit()) => rest,
+            _ => continue,
+        };
+        if !name.contains("c2pa::") || name.contains("c2pa::verif_hooks") {
+            continue;
+        }
+        let f = simplify_frame(name);
+        if chain.last() != Some(&f) {
+            chain.push(f);
+        }
+        if chain.len() == 7 {
+            break;
+        }
+    }
+    if chain.is_empty() {
+        "unknown".to_string()
+    } else {
+        chain.join("<-")
+    }
+}
+
+/// `<c2pa::a::b::T as c2pa::x::Trait>::method::<G>::h0123…` -> `T::method`; plain paths keep their
+/// last two segments; closures are attributed to the enclosing function.
+fn simplify_frame(name: &str) -> String {
+    // drop generic arguments (balanced angle brackets), but keep `<T as Trait>` heads
+    let mut s = name.to_string();
+    if let Some(j) = s.rfind("::h") {
+        if s[j + 3..].len() == 16 && s[j + 3..].chars().all(|c| c.is_ascii_hexdigit()) {
+            s.truncate(j);
+        }
+    }
+    let s = s.replace("::{{closure}}", "").replace("{{closure}}", "");
+    let (head, method) = if let Some(rest) = s.strip_prefix('<') {
+        // <Type as Trait>::method…
+        let mut depth = 1;
+        let mut end = 0;
+        for (i, c) in rest.char_indices() {
+            match c {
+                '<' => depth += 1,
+                '>' => {
+                    depth -= 1;
+                    if depth == 0 {
+                        end = i;
+                        break;
+                    }
+                }
+                _ => {}
+            }
+        }
+        let inside = &rest[..end];
+        let ty = inside.split(" as ").next().unwrap_or(inside);
+        (ty.to_string(), rest[end + 1..].trim_start_matches("::").to_string())
+    } else {
+        (s.clone(), String::new())
+    };
+    let strip_generics = |t: &str| -> String {
+        let mut out = String::new();
+        let mut depth = 0;
+        for c in t.chars() {
+            match c {
+                '<' => depth += 1,
+                '>' => depth -= 1,
+                _ if depth == 0 => out.push(c),
+                _ => {}
+            }
+        }
+        out
+    };
+    let head = strip_generics(&head);
+    let method = strip_generics(&method);
+    let mut segs: Vec<&str> = head.split("::").filter(|x| !x.is_empty() && *x != "&mut" && *x != "&").collect();
+    if !method.is_empty() {
+        let ty = segs.last().copied().unwrap_or("?").trim_start_matches("&mut ").trim_start_matches('&').to_string();
+        let m = method.split("::").next().unwrap_or("");
+        return format!("{ty}::{m}");
+    }
+    if segs.len() > 2 {
+        segs = segs[segs.len() - 2..].to_vec();
+    }
+    segs.join("::")
 }
 
 impl<T> Fault<T> {
     fn new(inner: T, fail_at: Option<u64>, sticky: bool) -> Self {
-        Fault { inner, ops: 0, fail_at, sticky, failed: false, kinds: (true, true, true), hit: None }
+        Fault { inner, ops: 0, fail_at, sticky, failed: false, kinds: (true, true, true), hit: None, site: None }
     }
 
     fn tick(&mut self, kind: &'static str) -> std::io::Result<()> {
@@ -123,6 +216,7 @@ impl<T> Fault<T> {
             self.failed = true;
             if self.hit.is_none() {
                 self.hit = Some(kind);
+                self.site = Some(sdk_call_site());
             }
             return Err(std::io::Error::other("injected fault"));
         }
@@ -450,7 +544,9 @@ fn e2e(run: &mut Run, rng: &mut Rng) {
             let _ = read_report(fmt, &mut f);
             f.ops
         };
-        let exhaustive = thorough && total < 6000;
+        // exhaustive in k whenever affordable: the set of call sites that absorb a transient fault
+        // must not depend on the seed
+        let exhaustive = total < 800 || (thorough && total < 6000);
         for sticky in [true, false] {
             for k in ks(total, rng, 48, if thorough { 400 } else { 40 }, exhaustive) {
                 let mut f = Fault::new(Cursor::new(signed.clone()), Some(k), sticky);
@@ -467,9 +563,19 @@ fn e2e(run: &mut Run, rng: &mut Rng) {
                         // Fail-stop (sticky) streams: the operation must return an error. A transient
                         // fault may be absorbed by a retry/optional probe only if the result is
                         // exactly the fault-free report (nothing was lost or mis-reported).
-                        if f.hit.is_some() && (sticky || r != baseline) {
-                            let class = if k == 0 || (kind == "read" && is_sniff_op(&signed, k)) { "io-error-hidden-sniff" } else { "io-error-hidden-read" };
-                            run.fail(idx, class, format!("{name}: {kind} op {k} of {total} failed ({}) but the read returned Ok ({})", if sticky { "sticky" } else { "transient" }, &r[..r.len().min(90)]));
+                        if f.hit.is_some() {
+                            let site = f.site.clone().unwrap_or_else(|| "unknown".to_string());
+                            // A fail-stop stream, or a result that differs from the fault-free report,
+                            // is an I/O error turned into a (wrong) verdict. A single transient fault
+                            // that is absorbed with an unchanged report is still an I/O error that was
+                            // not returned: it is classed by the SDK call site that swallowed it, so
+                            // that the reviewed optional probes can be listed one by one.
+                            let class = if sticky || r != baseline {
+                                "io-error-hidden-read".to_string()
+                            } else {
+                                format!("transient-io-absorbed:{site}")
+                            };
+                            run.fail(idx, &class, format!("{name}: {kind} op {k} of {total} failed ({}) in {site} but the read returned Ok ({})", if sticky { "sticky" } else { "transient" }, &r[..r.len().min(90)]));
                         }
                     }
                 }
